@@ -68,6 +68,11 @@ def sorted_provenance(ctx, crate, crs, tag):
     for si, st in sorts:
         vd, chain = q.origin_thru(b, st["args"][2])
         vec_local = vd.get("l") if vd["k"] in ("call", "rvalue", "multi") else None
+        # the vector itself is the local the `&mut` handed to the provider points at (the value-origin above looks through copies such
+        # as `matching.to_vec()` and may end at the matching list instead)
+        bl = _base_local(b, st["args"][2])
+        if bl is not None and "Vec<" in b.local_ty(bl):
+            vec_local = bl
         # the vector is filled by extend_from_slice(matching) with matching = get_or_cache_matching_candidates(vs).await?
         filled = False
         fills = []
@@ -93,6 +98,12 @@ def sorted_provenance(ctx, crate, crs, tag):
                 src, _ = mech._await_source(b, md)
                 if src is not None and CACHE + "get_or_cache_matching_candidates" in callee_keys(b.blocks[src]["term"]["f"]):
                     filled = True
+        if not filled:
+            # any copy of the matching list (`matching.to_vec()`, `Vec::from(matching)`, collect of its iter) - decided by the data slice
+            lv = q.leaves(b, st["args"][2])
+            lossy = {x[5:] for x in lv if x.startswith("call:")} & {"filter", "rev", "skip", "take", "step_by", "sort", "sort_by", "sort_unstable",
+                                                                     "dedup", "retain", "truncate", "skip_while", "take_while", "filter_map"}
+            filled = "call:get_or_cache_matching_candidates" in lv and not lossy
         ctx.ob("sorted-provenance" + tag, b.key, "sorted-input-is-matching-list", filled, where_call(b, si),
                "the list given to sort_candidates is a copy of the matching candidates")
         others = [t["f"]["name"] for i, t in pre if t["f"]["name"] not in ("extend_from_slice", "deref_mut", "deref")]
@@ -148,7 +159,7 @@ def sorted_provenance(ctx, crate, crs, tag):
                 rd, _ = q.origin_thru(b, it["args"][1], transparent=set())
                 if rd["k"] == "call" and rd["t"]["f"]["name"] == "new" and "RangeInclusive" in rd["t"]["f"]["path"]:
                     lo, hi = rd["t"]["args"]
-                    ok_range = lo.get("k") == "const" and lo.get("v") == 0 and vd2.get("l") == vec_local
+                    ok_range = lo.get("k") == "const" and lo.get("v") == 0 and (vd2.get("l") == vec_local or _base_local(b, it["args"][0]) == vec_local)
                     pd, _ = q.origin_thru(b, hi, transparent=set())
                     if pd["k"] == "call" and pd["t"]["f"]["name"] == "position" and \
                             any(isinstance(e, dict) and e.get("as") == "Some" for e in pd.get("proj", [])):
@@ -167,7 +178,7 @@ def sorted_provenance(ctx, crate, crs, tag):
         ins = q.calls_on_field(b, mech.INSERTS, CACHE_ADT, "requirement_to_sorted_candidates")
         for ii, it in ins:
             d, _ = q.origin_thru(b, it["args"][2], transparent=set())
-            ctx.ob("sorted-provenance" + tag, b.key, "stores-the-sorted-vector", d.get("l") == vec_local, where_call(b, ii),
+            ctx.ob("sorted-provenance" + tag, b.key, "stores-the-sorted-vector", d.get("l") == vec_local or _base_local(b, it["args"][2]) == vec_local, where_call(b, ii),
                    "what is cached is the vector the provider sorted")
 
 
@@ -190,3 +201,29 @@ def _position_closure_compares_favored(crate, b, pos_term):
     return cap_ok and len(ups) == 1 and len(eq) == 1
 
 
+
+
+def _base_local(b, op):
+    """The local an operand is, borrows or re-borrows (follows `&mut x`, `&mut *r`, plain moves / copies and deref_mut)."""
+    cur = operand_place(op)
+    for _ in range(8):
+        if cur is None:
+            return None
+        ds = b.defs_of(cur["l"])
+        if len(ds) != 1:
+            return cur["l"]
+        bb, idx, r = ds[0]
+        if idx == "term":
+            f = r.get("f")
+            if f and f["name"] in ("deref_mut", "deref", "as_mut_slice", "as_mut", "borrow_mut") and r["args"]:
+                cur = operand_place(r["args"][0])
+                continue
+            return cur["l"]
+        if r["k"] == "ref":
+            cur = {"l": r["p"]["l"]}
+            continue
+        if r["k"] == "use" and operand_place(r["o"]) is not None:
+            cur = {"l": operand_place(r["o"])["l"]}
+            continue
+        return cur["l"]
+    return cur["l"] if cur else None
